@@ -365,7 +365,7 @@ func scaleInputs(thorough bool) map[string][]byte {
 	out["exp"] = append([]byte("1e"), bytes.Repeat([]byte("9"), size)...)
 	out["string"] = append(append([]byte(`"`), bytes.Repeat([]byte("x"), size)...), '"')
 	out["escapes"] = append(append([]byte(`"`), bytes.Repeat([]byte(`\n`), size/2)...), '"')
-	out["uescapes"] = append(append([]byte(`"`), bytes.Repeat([]byte(`😀`), size/12)...), '"')
+	out["uescapes"] = append(append([]byte(`"`), bytes.Repeat([]byte(U("d83d")+U("de00")), size/12)...), '"')
 	out["ws"] = bytes.Repeat([]byte(" "), size)
 	out["ws-then-value"] = append(bytes.Repeat([]byte("\n"), size), '1')
 	out["wide-array"] = append(append([]byte("["), bytes.Repeat([]byte("1,"), size/2)...), "1]"...)
